@@ -178,6 +178,53 @@ class ToggleMonitor(Monitor):
         self.check(D.b_eq(bit(outs["falling"]), falling), "falling pulse wrong")
 
 
+def toggle_rt_design(first_state):
+    """durations given as run-time Unsigned[3] values"""
+    extra = ", first_state=True" if first_state else ""
+    lines = [HEADER, "class W(cohdl.Entity):", "    clk = Port.input(Bit)", "    rst_toggle = Port.input(Bit)", "    a = Port.input(Unsigned[3])", "    b = Port.input(Unsigned[3])",
+             "    state = Port.output(Bit)", "    rising = Port.output(Bit)", "    falling = Port.output(Bit)", "    def architecture(self):",
+             "        ctx = std.SequentialContext(std.Clock(self.clk))",
+             f"        t = std.ToggleSignal(ctx, self.a, self.b{extra})",
+             "        std.concurrent_assign(t.get_reset_signal(), self.rst_toggle)",
+             "        @std.concurrent", "        def logic():", "            self.state <<= t.state()", "            self.rising <<= t.rising()", "            self.falling <<= t.falling()"]
+    return "\n".join(lines) + "\n"
+
+
+class ToggleRtMonitor(Monitor):
+    """same reference machine as ToggleMonitor with symbolic durations (held constant over the run, both >= 1):
+    the period is first + second as a NUMBER (up to 14), not modulo the operand width"""
+
+    def __init__(self, first_state):
+        super().__init__()
+        self.first_state = int(first_state)
+        self.cnt = 0
+        self.state = 0
+        self.a0 = self.b0 = None
+
+    def step(self, i, ins, outs):
+        W = 5
+        if self.a0 is None:
+            self.a0, self.b0 = ins["a"], ins["b"]
+            self.assume(D.b_not(D.v_eq(self.a0, 0, 3)))
+            self.assume(D.b_not(D.v_eq(self.b0, 0, 3)))
+        self.assume(D.v_eq(ins["a"], self.a0, 3))
+        self.assume(D.v_eq(ins["b"], self.b0, 3))
+        first, second = D.v_zext(self.a0, 3, W), D.v_zext(self.b0, 3, W)
+        rst = bit(ins["rst_toggle"])
+        prev = self.state
+        wrap = D.v_eq(D.v_add(self.cnt, 1, W), D.v_add(first, second, W), W)
+        cnt2 = mux(wrap, 0, D.v_add(self.cnt, 1, W), W)
+        st2 = mux(D.v_ult(cnt2, first, W), self.first_state, 1 - self.first_state, 1)
+        self.cnt = mux(rst, 0, cnt2, W)
+        self.state = mux(rst, 0, st2, 1)
+        prev_eff = mux(rst, 0, prev, 1)
+        rising = D.b_and(D.b_not(rst), D.b_and(D.v_eq(prev_eff, 0, 1), D.v_eq(self.state, 1, 1)))
+        falling = D.b_and(D.b_not(rst), D.b_and(D.v_eq(prev_eff, 1, 1), D.v_eq(self.state, 0, 1)))
+        self.check(D.v_eq(outs["state"], self.state, 1), "toggle state differs from the run-time durations")
+        self.check(D.b_eq(bit(outs["rising"]), rising), "rising pulse wrong")
+        self.check(D.b_eq(bit(outs["falling"]), falling), "falling pulse wrong")
+
+
 # ------------------------------------------------------------------ debounce
 def debounce_design(period, initial):
     lines = [HEADER, "class W(cohdl.Entity):", "    clk = Port.input(Bit)", "    reset = Port.input(Bit)", "    inp = Port.input(Bit)",
@@ -237,6 +284,9 @@ def jobs(tier):
         tot = f + (f if s is None else s)
         js.append((f"ToggleSignal|{f}|{s}|default={ds}|first={fs}", toggle_design(f, s, ds, fs), {"rst_toggle": 1}, ["state", "rising", "falling"], 2 * tot + 5,
                    lambda f=f, s=s, ds=ds, fs=fs: ToggleMonitor(f, s, ds, fs)))
+    for fs in (False, True):
+        js.append((f"ToggleSignal|runtime durations|first={fs}", toggle_rt_design(fs), {"rst_toggle": 1, "a": 3, "b": 3}, ["state", "rising", "falling"], 20 if tier == "quick" else 32,
+                   lambda fs=fs: ToggleRtMonitor(fs)))
     for period, initial in ((2, False), (3, True), (4, False), (5, False)):
         js.append((f"debounce|{period}|initial={initial}", debounce_design(period, initial), {"reset": 1, "inp": 1}, ["o"], 2 * period + 6, lambda period=period, initial=initial: DebounceMonitor(period, initial)))
     return js
